@@ -269,7 +269,7 @@ func c01Replay(pl json.RawMessage) (string, []core.Violation) {
 func init() {
 	core.Register(&core.PropSpec{
 		ID: "C01", Level: "exploration",
-		Rule:     "programs: (i) every loop-free token sequence <= n (4 quick, 5 thorough) that the reference parser accepts as subset-only, space and LF layouts; (ii) print(E) for every expression chain of depth <= 2 (3 thorough) in default and minimal-gap layouts; (iii) an executable statement family (if/else, while, for, function declarations/expressions, closures, nested blocks, every ASI-hazard adjacency) in every layout with <= k deviations (line break, no gap, comment; semicolons dropped); each accepted program and each compiled output (compact, pretty variants, with source map) is executed by goja in a fresh realm whose free identifiers are logging proxies; observation = call/property/conversion log + completion kind + completion value. non-trivial = program whose run has observable effects (non-empty log)",
+		Rule:     "programs: (i) every loop-free token sequence <= n (4 quick, 5 thorough) that the reference parser accepts as subset-only, space and LF layouts; (ii) print(E) for every expression chain of depth <= 2 (3 thorough) in default and minimal-gap layouts; (iii) an executable statement family (if/else, while, for, function declarations/expressions, closures, nested blocks, every ASI-hazard adjacency) in every layout with <= k deviations (line break, no gap, comment; semicolons dropped); each accepted program and each compiled output (compact, pretty variants, with source map) is executed by goja in a fresh realm whose free identifiers are logging proxies; observation = call/property/conversion log + completion kind + completion value. non-trivial = program whose run has observable effects (non-empty log) Added families: every literal fragment of the C07 alphabet inside executable programs; literal-content statements (sign-leading strings after operators, multi-line templates after literals with quotes/comment markers); every binary operator followed by every pair of prefix operators / every postfix-binary-prefix adjacency; member access on 12 number-literal shapes as raw text; the scale family (one regular shape per size 9..257, 1025+ thorough). Extra oracle: the output must not fuse the tokens < ! -- into \"<!--\" (HTML-like comment opener for script engines); an output that still runs after 30 s while the source terminated is a violation.",
 		Assume:   []string{"goja is the reference engine; both sides run on it, so engine quirks cancel", "runs interrupted after 2 s give no verdict (counted)"},
 		QuickSec: 300, ThorSec: 2400, Run: c01Run, Replay: c01Replay,
 		Evals: "executions", Nontriv: "programs_with_observable_effects",
